@@ -596,7 +596,7 @@ fn rnd_shape(r: &mut Rng, maxdim: usize, lvl: u32, ops_mul: usize) -> Shape {
 fn run_builtin<R: HRing>(s: &mut Sink, r: &mut Rng, char2: bool)
 where for<'x> &'x R: EucRingOps<R> {
     let two = R::one() + R::one();
-    let tors2: Vec<R> = if R::is_field() { vec![] } else { vec![two] };
+    let tors2: Vec<R> = if two.nonunit() { vec![two] } else { vec![] };
     // expected (rank, tors) per degree
     let rp2: Vec<(usize, Vec<R>)> = if char2 { vec![(1, vec![]), (1, vec![]), (1, vec![])] } else { vec![(1, vec![]), (0, tors2.clone()), (0, vec![])] };
     let list: Vec<(&str, GenericChainComplex<R>, Vec<(usize, Vec<R>)>)> = vec![
@@ -652,6 +652,24 @@ where for<'x> &'x R: EucRingOps<R> {
     let ds = vec![z(0, 1), m(1, 1, &[0]), m(1, 2, &[1, -1])];
     run_complex(s, r, "corpus=complex", &ds, &[Some((1, vec![])), Some((0, vec![])), Some((1, vec![]))], 1, false);
     run_complex(s, r, "corpus=complex", &ds, &[Some((1, vec![])), Some((0, vec![])), Some((1, vec![]))], 1, true);
+}
+
+/// exhaustive small spaces: every 2x2 `d1` with entries in `vals` (d2 = 0), and every pair (d1: 2x1, d2: 1x2) with
+/// d2·d1 = 0.  No planted truth: rank/torsion are decided by the Lean side, the generator clauses by the oracle.
+fn exhaustive<R: HRing>(s: &mut Sink, r: &mut Rng, vals: &[i64])
+where for<'x> &'x R: EucRingOps<R> {
+    let e = |x: i64| -> R { let mut a = R::zero(); let one = R::one(); for _ in 0..x.abs() { a = a + &one; } if x < 0 { -a } else { a } };
+    let vs: Vec<R> = vals.iter().map(|&x| e(x)).collect();
+    let k = vs.len();
+    for idx in 0..k * k * k * k {
+        let es: Vec<R> = (0..4).map(|p| vs[(idx / k.pow(p)) % k].clone()).collect();
+        let d1 = D::<R> { r: 2, c: 2, e: es.clone() };
+        run_direct(s, r, "exhaustive=2x2", &d1, &D::zero(0, 2), None, 1);
+        let d1 = D::<R> { r: 2, c: 1, e: es[0..2].to_vec() };
+        let d2 = D::<R> { r: 1, c: 2, e: es[2..4].to_vec() };
+        if d2.mul(&d1).is_zero() { run_direct(s, r, "exhaustive=2x1,1x2", &d1, &d2, None, 1); }
+    }
+    s.count(&format!("exhaustive.{}", R::name()));
 }
 
 /// malformed: shapes that do not compose must be rejected (assert), answer of the code model: `panic`
@@ -754,13 +772,24 @@ fn main() {
 
     for _ in 0..(if th { 200 } else { 40 }) { malformed::<i64>(s, r); }
 
-    for _ in 0..(if th { 3000 } else { 400 }) { run_trans(s, r); }
+    if th {
+        exhaustive::<i64>(s, r, &[-3, -2, -1, 0, 1, 2, 3, 4, 6]);
+        exhaustive::<BigInt>(s, r, &[-2, -1, 0, 1, 2]);
+        exhaustive::<FF2>(s, r, &[0, 1]); exhaustive::<FF<3>>(s, r, &[0, 1, 2]); exhaustive::<FF<5>>(s, r, &[0, 1, 2, 3, 4]);
+        exhaustive::<GaussInt<i64>>(s, r, &[-2, -1, 0, 1, 2]); exhaustive::<EisenInt<i64>>(s, r, &[-2, -1, 0, 1, 2]);
+        exhaustive::<Ratio<i64>>(s, r, &[-2, -1, 0, 1, 2]);
+    } else {
+        exhaustive::<i64>(s, r, &[-2, 0, 1, 2, 3]);
+        exhaustive::<FF2>(s, r, &[0, 1]); exhaustive::<FF<3>>(s, r, &[0, 1, 2]);
+    }
+
+    for _ in 0..(if th { 20000 } else { 1500 }) { run_trans(s, r); }
 
     // planted complexes: (cases, maxdim, lvl, ops multiplier)
-    let k = if th { 12 } else { 1 };
+    let k = if th { 250 } else { 20 };
     ring_stream::<i64>(s, r, 60 * k, if th { 7 } else { 5 }, 2, 1);
     ring_stream::<i128>(s, r, 40 * k, if th { 9 } else { 6 }, 2, 2);
-    ring_stream::<BigInt>(s, r, 50 * k, if th { 12 } else { 7 }, 3, 2);
+    ring_stream::<BigInt>(s, r, 50 * k, if th { 16 } else { 8 }, 3, 2);
     ring_stream::<BigInt>(s, r, 8 * k, if th { 8 } else { 4 }, if th { 19 } else { 7 }, 1);
     ring_stream::<Ratio<i64>>(s, r, 40 * k, 4, 1, 1);
     ring_stream::<FF2>(s, r, 50 * k, if th { 14 } else { 8 }, 1, 3);
@@ -770,6 +799,15 @@ fn main() {
     ring_stream::<EisenInt<i64>>(s, r, 40 * k, 4, 1, 1);
     ring_stream::<PQ>(s, r, 30 * k, 3, 1, 1);
     ring_stream::<PF3>(s, r, 40 * k, if th { 5 } else { 4 }, 1, 1);
+    if th {
+        // larger shapes
+        ring_stream::<BigInt>(s, r, 300, 24, 3, 2);
+        ring_stream::<BigInt>(s, r, 100, 12, 19, 1);
+        ring_stream::<FF2>(s, r, 300, 32, 1, 3);
+        ring_stream::<FF<3>>(s, r, 300, 32, 1, 3);
+        ring_stream::<FF<5>>(s, r, 300, 32, 1, 3);
+        ring_stream::<i128>(s, r, 300, 12, 2, 1);
+    }
 
     sink.finish();
 }
